@@ -340,5 +340,6 @@ fn main() {
     ck.prop_export("graph", n / 6, || op_case(2, 10), |c| oracle_graph(&profile, c), |c| c.export(&profile));
     let general = Profile::general();
     ck.prop_export("graph-general", n / 12, || op_case(2, 12), |c| oracle_graph(&general, c), |c| c.export(&general));
+    vc_ops::classes::record_operator_coverage(&mut ck, "op:", "operators_type_rule_checked");
     ck.finish();
 }
